@@ -217,6 +217,9 @@ CONFIGS = {
     "gcc23-dbg": ("g++", "-std=c++23 -O1 -UNDEBUG -D_MDSPAN_DEBUG"),
     "clang17-dbg": ("clang++", "-std=c++17 -O0 -UNDEBUG -D_MDSPAN_DEBUG"),
     "gcc17-assert": ("g++", "-std=c++17 -O1 -UNDEBUG"),
+    "gcc23-assert": ("g++", "-std=c++23 -O1 -UNDEBUG"),
+    "clang17-assert": ("clang++", "-std=c++17 -O0 -UNDEBUG"),
+    "clang20-assert": ("clang++", "-std=c++20 -O1 -UNDEBUG"),
 }
 
 
